@@ -123,6 +123,14 @@ Section Topo.
 
   Definition merge_orders (os : list (list L)) : option (list L) :=
     topo_sort (nodes_of_orders os) (edges_of_orders os).
+
+  (* Implicit unification (x: {..}  x: {..}), embedded literals, x: a  x: b:
+     vertex.go walks the struct literals one after the other; a label that was
+     already met (same file) is skipped, every new label gets an edge from the
+     previously added one.  The graph is the single chain of first occurrences. *)
+  Definition first_occ (l : list L) : list L := rev (dedup (rev l)).
+  Definition implicit_orders (os : list (list L)) : option (list L) :=
+    merge_orders [first_occ (concat os)].
 End Topo.
 
 (* --- adt.Feature as far as compareNodeByName looks at it: integer labels
